@@ -288,7 +288,7 @@ fn c07_build(cfg: &[u16]) -> Built {
             setup.push(("n0".into(), format!("INVITE n{} {}", who, ch)));
         }
     }
-    let prof = Profile::base().with(&[
+    let mut prof = Profile::base().with(&[
         (K::Join, 42),
         (K::Part, 9),
         (K::Invite, 8),
@@ -299,6 +299,15 @@ fn c07_build(cfg: &[u16]) -> Built {
         (K::Kick, 4),
         (K::CapPost, 2),
     ]);
+    // a channel from the configuration that somebody has visited and left empty again: it goes on
+    // existing, and it does not go on counting against the visitor's quota
+    if c.max_joins.is_some() && s.chance(30) {
+        c.channels.push(ChanSpec { name: "#pre0".into(), flags: ["", "n", "nt"][s.pick(3)].into(), ..Default::default() });
+        prof.chans.push("#pre0".into());
+        let who = 1 + s.pick(users - 1);
+        setup.push((format!("n{}", who), "JOIN #pre0".into()));
+        setup.push((format!("n{}", who), "PART #pre0".into()));
+    }
     enrich(Built { cfg: c, prof, prelude_users: users, setup }, &mut s)
 }
 
